@@ -519,16 +519,24 @@ func main() {
 	// ---- part 2
 	type aspace struct {
 		maxLen, k int
+		vecs      []string // instead of every vector up to maxLen
 	}
-	aspaces := []aspace{{1, 1}, {1, 2}, {1, 3}}
+	// vectors whose lengths straddle the allocator's size classes (a stored vector of length 1..8 has capacity 8, of 9..16 has 16):
+	// a later, longer report may or may not fit the spare capacity of an earlier one
+	lengths := []string{"C", "UC", "NUC", "CUNCU", "XXXXXXXC", "UUUUUUUUC", "NNNNNNNNNNNNNNNNC"}
+	aspaces := []aspace{{1, 1, nil}, {1, 2, nil}, {1, 3, nil}, {0, 2, lengths}}
 	if !r.Quick() {
-		aspaces = append(aspaces, aspace{2, 2})
+		aspaces = append(aspaces, aspace{2, 2, nil}, aspace{0, 3, lengths[:5]})
 	}
 	for _, sp := range aspaces {
 		if r.Capped {
 			break
 		}
-		alpha := runAlphabet(vectors(sp.maxLen))
+		vs := sp.vecs
+		if vs == nil {
+			vs = vectors(sp.maxLen)
+		}
+		alpha := runAlphabet(vs)
 		var work [][]int
 		multisets(len(alpha), sp.k, func(idx []int) { work = append(work, append([]int{}, idx...)) })
 		// simplest first: smallest index sum
